@@ -57,7 +57,7 @@ func cmdRun(args []string) int {
 	ex.Log = func(s string) { fmt.Println(s) }
 	var js []*interp.Job
 	for _, j := range jobs {
-		js = append(js, &interp.Job{Harness: harness, Param: j})
+		js = append(js, parseJob(harness, j))
 	}
 	t1 := time.Now()
 	res := ex.Run(js)
